@@ -110,7 +110,7 @@ func ruleIndexContracts(r *Run) {
 		for pi := range paths {
 			path := &paths[pi]
 			r.at(path)
-			if addrIdentityInfeasible(fn, path) {
+			if r.addrIdentityInfeasible(fn, path) {
 				nInfeasible++
 				continue
 			}
@@ -139,17 +139,17 @@ func ruleIndexContracts(r *Run) {
 							regs++
 							regPos = ev.Pos
 							if len(ev.Rhs) == len(ev.Lhs) {
-								ok := false
-								ast.Inspect(resolveLocal(ev.Fn, ev.Rhs[k], 0), func(n ast.Node) bool {
-									if u, isU := n.(*ast.UnaryExpr); isU && u.Op == token.AND {
-										if id, isID := ast.Unparen(u.X).(*ast.Ident); isID {
-											if v, isV := ev.Fn.Info().Uses[id].(*types.Var); isV && paramIndex(fn, v) == 0 {
+								ok := strings.Contains(r.P.Canon(ev.Fn, ev.Rhs[k]), "&param:#0")
+								if !ok {
+									ast.Inspect(resolveLocal(ev.Fn, ev.Rhs[k], 0), func(n ast.Node) bool {
+										if id, isID := n.(*ast.Ident); isID {
+											if strings.Contains(r.P.Canon(ev.Fn, id), "&param:#0") {
 												ok = true
 											}
 										}
-									}
-									return true
-								})
+										return true
+									})
+								}
 								r.CheckT("Q2", fn.Name+":registers-the-sample", ok, ev.Pos, path,
 									"what is registered in the cells of a new plane is not (a pointer to) the sample handed in: %s", r.P.exprStr(ev.Rhs[k]))
 							}
@@ -243,7 +243,8 @@ func (r *Run) cellListsDisjoint(fns []*Func) {
 				return
 			}
 			switch nd.(type) {
-			case *ast.ForStmt, *ast.RangeStmt:
+			case *ast.ForStmt, *ast.RangeStmt, *ast.FuncLit:
+				// (a literal handed to an iterator helper is a loop body)
 				loops = append(loops, nd)
 				defer func() { loops = loops[:len(loops)-1] }()
 			}
@@ -302,15 +303,12 @@ func (r *Run) cellListsDisjoint(fns []*Func) {
 				}
 			}
 			for _, c := range childrenOf(nd) {
-				if _, isLit := c.(*ast.FuncLit); isLit {
-					continue
-				}
 				walk(c)
 			}
 		}
 		walk(fn.Body)
 	}
-	r.Floor("Q6", "cell list stores examined", n, 6)
+	r.Floor("Q6", "cell list stores examined", n, 3)
 }
 
 // staleCellIndex (Q7): cell coordinates are relative to the grid's origin. A call that may move the
@@ -494,56 +492,36 @@ func (r *Run) staleCellIndex(fns []*Func) {
 	r.Floor("Q7", "functions that can move the origin or reshape the grid", len(expander), 1)
 }
 
-// addrIdentityInfeasible: the path takes a branch `v == &p` (p a parameter or local of the function) in a
-// direction that contradicts the value last assigned to v on the path.
-func addrIdentityInfeasible(fn *Func, path *Path) bool {
-	info := fn.Info()
-	isAddrOfLocal := func(x ast.Expr) (types.Object, bool) {
-		u, ok := ast.Unparen(x).(*ast.UnaryExpr)
-		if !ok || u.Op != token.AND {
-			return nil, false
-		}
-		id, ok := ast.Unparen(u.X).(*ast.Ident)
-		if !ok {
-			return nil, false
-		}
-		v, ok := info.Uses[id].(*types.Var)
-		if !ok || v.IsField() || v.Parent() == nil || v.Parent() == v.Pkg().Scope() {
-			return nil, false
-		}
-		return v, true
+// addrIdentityInfeasible: the path takes a branch `a == b` / `a != b`, one side of which is (by provenance on
+// this path: locals resolved to their most recent definition, results of looked-into helpers to what was
+// returned) the address of a parameter or local of the function, in a direction that contradicts the
+// provenance of the other side: the same address compares equal; nil, a pointer handed out by a call, or
+// another address compares different.
+func (r *Run) addrIdentityInfeasible(fn *Func, path *Path) bool {
+	isAddr := func(c string) bool {
+		return strings.HasPrefix(c, "&param:") || strings.HasPrefix(c, "&local:") || strings.HasPrefix(c, "&var:")
 	}
-	for i, ev := range path.Events {
-		if ev.Kind != EvGuard || ev.Cond == nil || ev.Fn != fn {
+	definite := func(c string) bool {
+		return c == "nil" || isAddr(c) || strings.Contains(c, "call:")
+	}
+	for _, ev := range path.Events {
+		if ev.Kind != EvGuard || ev.Cond == nil {
 			continue
 		}
 		be, ok := ast.Unparen(ev.Cond).(*ast.BinaryExpr)
 		if !ok || (be.Op != token.EQL && be.Op != token.NEQ) {
 			continue
 		}
-		for _, side := range [][2]ast.Expr{{be.X, be.Y}, {be.Y, be.X}} {
-			target, ok := isAddrOfLocal(side[1])
-			if !ok {
-				continue
-			}
-			id, ok := ast.Unparen(side[0]).(*ast.Ident)
-			if !ok {
-				continue
-			}
-			obj := info.Uses[id]
-			rhs, _, ok := lastDefOnPath(fn, path, i, obj)
-			if !ok || rhs == nil {
-				continue
-			}
-			t2, same := isAddrOfLocal(rhs)
-			equal := same && t2 == target
-			truth := ev.Val
-			if be.Op == token.NEQ {
-				truth = !truth
-			}
-			if truth != equal {
-				return true
-			}
+		ca, cb := r.P.Canon(ev.Fn, be.X), r.P.Canon(ev.Fn, be.Y)
+		if !(isAddr(ca) && definite(cb)) && !(isAddr(cb) && definite(ca)) {
+			continue
+		}
+		truth := ev.Val
+		if be.Op == token.NEQ {
+			truth = !truth
+		}
+		if truth != (ca == cb) {
+			return true
 		}
 	}
 	return false
@@ -572,28 +550,67 @@ func isPtrKeyedMap(t types.Type) bool {
 	return ok
 }
 
-// regionDedup (Q3).
-func (r *Run) regionDedup(fn *Func) {
+// regionDedup (Q3): the region query and the helpers of the package it hands the work to.
+func (r *Run) regionDedup(root *Func) {
+	n := 0
+	seen := map[*Func]bool{}
+	var visit func(fn *Func, judgeResult bool, depth int)
+	visit = func(fn *Func, judgeResult bool, depth int) {
+		key := fn
+		if seen[key] || depth > 3 {
+			return
+		}
+		seen[key] = true
+		more := r.regionDedupIn(root, fn, judgeResult, &n)
+		// helpers called from here: loops examined everywhere, result writes where the result is built
+		info := fn.Info()
+		ast.Inspect(fn.Body, func(nd ast.Node) bool {
+			call, ok := nd.(*ast.CallExpr)
+			if !ok {
+				return true
+			}
+			if f, ok := calleeObjRaw(info, call).(*types.Func); ok && f.Pkg() != nil && f.Pkg().Path() == pkgDagaz {
+				if g := r.P.Funcs[f]; g != nil && g != root && r.P.isGlue(f) {
+					visit(g, more[call], depth+1)
+				}
+			}
+			return true
+		})
+	}
+	visit(root, true, 0)
+	r.Floor("Q3", "result writes and loops examined in GetRegion", n, 4)
+}
+
+// regionDedupIn examines one function; it returns the calls whose value is returned as (part of) the result.
+func (r *Run) regionDedupIn(root, fn *Func, judgeResult bool, count *int) map[*ast.CallExpr]bool {
 	info := fn.Info()
 	r.Analysed(fn, 1)
+	resultCalls := map[*ast.CallExpr]bool{}
+	site := root.Name
+	if fn != root {
+		site = root.Name + ">" + shortFuncName(fn.Obj)
+	}
 	// the returned variables
 	returned := map[types.Object]bool{}
 	ast.Inspect(fn.Body, func(n ast.Node) bool {
 		if _, ok := n.(*ast.FuncLit); ok {
 			return false
 		}
-		if rs, ok := n.(*ast.ReturnStmt); ok {
+		if rs, ok := n.(*ast.ReturnStmt); ok && judgeResult {
 			for _, res := range rs.Results {
 				if id, ok := ast.Unparen(res).(*ast.Ident); ok {
 					if o := info.Uses[id]; o != nil {
 						returned[o] = true
 					}
 				}
+				if call, ok := ast.Unparen(res).(*ast.CallExpr); ok {
+					resultCalls[call] = true
+				}
 			}
 		}
 		return true
 	})
-	if fn.Type.Results != nil {
+	if fn.Type.Results != nil && judgeResult {
 		for _, f := range fn.Type.Results.List {
 			for _, nm := range f.Names {
 				if o := info.Defs[nm]; o != nil {
@@ -605,6 +622,7 @@ func (r *Run) regionDedup(fn *Func) {
 	// walk with a stack of enclosing statements
 	var stack []ast.Node
 	n := 0
+	defer func() { *count += n }()
 	uniqueSource := func(val ast.Expr) (bool, string) {
 		val = ast.Unparen(val)
 		id, isID := val.(*ast.Ident)
@@ -664,7 +682,7 @@ func (r *Run) regionDedup(fn *Func) {
 					if id, ok := ast.Unparen(ix.X).(*ast.Ident); ok && returned[info.Uses[id]] {
 						n++
 						ok, why := uniqueSource(as.Rhs[k])
-						r.Check("Q3", fn.Name+":result-unique", ok, as.Pos(), "a plane is written into the result of the region query without anything that keeps it from being returned once per cell it is registered in (accepted: key of a pointer-keyed map; guarded by a not-yet-seen test) %s", why)
+						r.Check("Q3", site+":result-unique", ok, as.Pos(), "a plane is written into the result of the region query without anything that keeps it from being returned once per cell it is registered in (accepted: key of a pointer-keyed map; guarded by a not-yet-seen test) %s", why)
 					}
 				}
 				// result = append(result, v...)
@@ -677,7 +695,7 @@ func (r *Run) regionDedup(fn *Func) {
 								if call.Ellipsis.IsValid() {
 									ok = false
 								}
-								r.Check("Q3", fn.Name+":result-unique", ok, as.Pos(), "a plane is appended to the result of the region query without anything that keeps it from being returned once per cell it is registered in (accepted: key of a pointer-keyed map; guarded by a not-yet-seen test) %s", why)
+								r.Check("Q3", site+":result-unique", ok, as.Pos(), "a plane is appended to the result of the region query without anything that keeps it from being returned once per cell it is registered in (accepted: key of a pointer-keyed map; guarded by a not-yet-seen test) %s", why)
 							}
 						}
 					}
@@ -718,14 +736,24 @@ func (r *Run) regionDedup(fn *Func) {
 			}
 			ast.Inspect(body, scan)
 			n++
-			r.Check("Q3", fn.Name+":cells-all-visited", !early.IsValid(), nd.Pos(), "a loop of the region query is left early (break / return / goto): cells of the queried range are skipped and their planes are missing from the answer")
+			r.Check("Q3", site+":cells-all-visited", !early.IsValid(), nd.Pos(), "a loop of the region query is left early (break / return / goto): cells of the queried range are skipped and their planes are missing from the answer")
 		}
 		for _, c := range childrenOf(nd) {
 			walk(c)
 		}
 	}
 	walk(fn.Body)
-	r.Floor("Q3", "result writes and loops examined in GetRegion", n, 4)
+	// a local that is returned and was defined by a call: that call builds the result
+	for o := range returned {
+		if v, ok := o.(*types.Var); ok {
+			if ds, ok := fn.Defs().singleDef(v); ok && ds.rhs != nil && !ds.multi {
+				if call, ok := ast.Unparen(ds.rhs).(*ast.CallExpr); ok {
+					resultCalls[call] = true
+				}
+			}
+		}
+	}
+	return resultCalls
 }
 
 func objOf(info *types.Info, id *ast.Ident) types.Object {
